@@ -235,6 +235,24 @@ pub fn run(reg: &[Box<dyn TypeOps>], cfg: &Cfg, out: &mut dyn Write) {
                 }
             }
         }
+        // … for 2-byte offset types, link offsets around 256 and 512 (S117)
+        if let Shape::Flex(e, l) = &sh {
+            if l.size == 2 {
+                let lens: Vec<usize> = match &**e {
+                    Shape::Vec(ee, il) if ee.size() == 1 => (246..=256usize).filter(|n| (*n as u128) <= il.max()).collect(),
+                    Shape::Str(il) => (246..=256usize).chain(502..=512).filter(|n| (*n as u128) <= il.max()).collect(),
+                    _ => vec![],
+                };
+                for n in lens {
+                    let it = match &**e {
+                        Shape::Vec(ee, _) => D::VecIter((0..n).map(|i| gen_sized(ee, &mut Rng::new(i as u64))).collect()),
+                        _ => D::StrFrom(vec![b'a'; n]),
+                    };
+                    let small = gen_init(e, &mut rng, 1);
+                    boundary.push((1400, vec![Op::FPush(small.clone()), Op::FPush(it), Op::FPush(small.clone()), Op::FPop, Op::FPush(small)]));
+                }
+            }
+        }
         // … and for 2-byte offset types (S103): a string item of almost 64 KiB whose link offset lands on / next to `L::MAX` = 65535, then
         // another push (strings only, see above)
         if let Shape::Flex(e, l) = &sh {
